@@ -199,6 +199,9 @@ def run(ctx):
     pair_agreement(ctx)
     forcing_sites(ctx)
     anis_writers(ctx)
+    from .. import flagfwd
+
+    flagfwd.run(ctx, "R13.5")
     return (
         "Decides the structural clauses of C13: (R13.1) every call of the four sphere conversions passes the caller's geo_scale as radius and geo_scale/latlon are forwarded along "
         "vario_estimate -> standard_bins and Krige.set_condition -> vario_estimate; (R13.2) forward/inverse conversions agree on keywords, time handling (divide/multiply by the LAST ratio, time appended last), "
